@@ -1246,6 +1246,15 @@ def run(ctx):
         html_names = []
         ctx.broken.append("translator: HTML element table: %s" % ex)
 
+    # the HTML output method inside the model (FormatterToHTML as coded + an HTML 4.01 reader): built as its own part (props/C08_html.py)
+    try:
+        import importlib
+        html_part = importlib.import_module("props.C08_html")
+    except ImportError:
+        html_part = None
+    if html_part is not None:
+        html_part.run_part(ctx)
+
     known = {k["key"]: k for k in ctx.known.findings if k["property"] in ("C08", "C04")}
     known_keys = set(known)
     thorough = ctx.thorough
